@@ -129,6 +129,42 @@ Theorem C20_typed : forall ops i ty l d,
 Proof. exact typed_all_histories. Qed.
 Print Assumptions C20_typed.
 
+(* ---- Extension: ModelCollection.cast --------------------------------- *)
+(* casting something that already is a collection returns THAT collection (the same
+   object, no copy) and touches nothing *)
+Theorem C20_cast_identity : forall h j ty lo di,
+  get_inst h j = Some (ty, lo, di) -> mc_cast h (CColl j) = (h, Ok j).
+Proof. exact cast_identity. Qed.
+Print Assumptions C20_cast_identity.
+
+(* after any history: a successful cast of None / a Model / a sequence of Models is a
+   NEW collection holding exactly these objects (index = enumerate), nothing old is
+   written; the cast fails — with TypeError and without any change — exactly for
+   a non-Model object, a sequence containing a non-Model, or any other argument *)
+Theorem C20_cast : forall ops a h' r,
+  mc_cast (run [] ops) a = (h', r) ->
+  let h := run [] ops in
+  firstn (length h) h' = h
+  /\ match r with
+     | Ok c =>
+         match a with
+         | CColl j => c = j /\ h' = h /\ get_inst h j <> None
+         | _ => get_inst h c = None
+                /\ view h' c = Some (CBase, cast_objs a, od_of (enum_names 0 (cast_objs a)))
+                /\ Forall (fun o => issub (ocls o) CBase = true) (cast_objs a)
+         end
+     | Err e => e = TypeError /\ h' = h
+                /\ match a with
+                   | CNone => False
+                   | CObj o => issub (ocls o) CBase = false
+                   | CColl j => get_inst h j = None
+                   | CSeq s => ~ Forall (fun o => issub (ocls o) CBase = true) s
+                   | COther => True
+                   end
+     end.
+Proof. exact cast_all_histories. Qed.
+Print Assumptions C20_cast.
+
 (* ---- make_dict_hash / PDFSet --------------------------------------- *)
 (* (no side condition: the statements hold for every pair of item lists that are
    permutations of each other; Python dictionaries additionally have unique keys)
@@ -459,3 +495,15 @@ Example C20_config_delitem_nonvacuous :
   = [Ok (TNode [(2, TNode [(21, TAtom 5)])]); Ok (TNode [(2, TNode [(22, TAtom 0); (21, TAtom 5)])])]
   /\ snd (wstep 20 (wrun 20 w0 (firstn 8 ops)) (WMut 0 (MDelItem [2] 99))) = Err KeyError.
 Proof. cbv zeta. split; vm_compute; reflexivity. Qed.
+
+Example C20_cast_nonvacuous :
+  let o k := mkobj k k CBase in
+  let h := run [] [ONewSeq CBase [o 0; o 1]] in
+  mc_cast h (CColl 2) = (h, Ok 2%nat)
+  /\ snd (mc_cast h (CSeq [o 2; o 0])) = Ok 5%nat
+  /\ view (fst (mc_cast h (CSeq [o 2; o 0]))) 5 = Some (CBase, [o 2; o 0], [(2, 0); (0, 1)])
+  /\ snd (mc_cast h CNone) = Ok 5%nat
+  /\ snd (mc_cast h (CObj (mkobj 7 1 CForeign))) = Err TypeError
+  /\ snd (mc_cast h (CSeq [o 2; mkobj 7 1 CForeign])) = Err TypeError
+  /\ snd (mc_cast h COther) = Err TypeError.
+Proof. cbv zeta. repeat split; vm_compute; reflexivity. Qed.
